@@ -7,7 +7,7 @@ the enclosing context and may contain calls -- sits at a position that is NOT an
   assignment      `x = probe`, `x: T = probe`, `x += probe`, annotated assignment without a value
   place           x,  xs[probe],  xs[probe].a,  xs[probe][i],  xs[i][probe]   read as an expression
   target          xs[probe] = v   (the index expression of an assignment target is evaluated as well)
-  modifier        with control(probe): ...   /   with power(probe): ...        nested in the checked block
+  modifier        with control(c0, probe): ...   /   with power(probe): ...    nested in the checked block
 
 Specification, for every context flag set F:  an assignment or a subscripted place is rejected (GuppyError) iff Dagger is in F;
 whenever the statement is not rejected and F is not empty the probe has been visited (so that the call visitors see the calls inside
@@ -125,7 +125,7 @@ def run(ctx: Ctx, dom: FlagDomain) -> bool:
             p = probe()
             # (the CFG builder creates `Control(call, call.args)`: the list of control arguments IS the argument list of the raw call, and
             #  the type checker replaces its elements in place; `Power(call, call.args[0])` keeps the checked argument only in `.iter`)
-            shared = [p]
+            shared = [pn(_var("c0")), p] if which == "control" else [p]  # (the probe is the SECOND control argument)
             raw = N("Call", func=N("Name", id=which), args=shared if which == "control" else [N("Name", id="unchecked_argument")], keywords=[], _order=("func", "args", "keywords"))
             ctrl = [Tok("Control", __class__="Control", ctrl=shared, __ident__=1)] if which == "control" else []
             powr = [Tok("Power", __class__="Power", iter=p, __ident__=1)] if which == "power" else []
